@@ -26,6 +26,8 @@ NEEDS_BRIDGEPOINT = True
 BUDGET_S = {'quick': 3600, 'thorough': 14400}
 ASSUMPTIONS = [
     'association key spellings equal the declared attribute spellings',
+    'every split of an input over several input() calls is also fed with a build_metamodel() after every call; only the last '
+    'build is judged (the earlier ones may be refused while a class is missing)',
     'the API route is compared for populations whose join respects the declared multiplicities; rows are created referred-first',
     'which pairs are linked depends on the model alone, not on models loaded earlier in the process (cross-model family: schemas '
     'declaring the same class and attribute names with other types, one after the other in one process)',
@@ -207,10 +209,17 @@ def ref_rows(rows):
     return [(k, dict((n, (None if v == ABSENT else v)) for n, v in vals.items())) for k, vals in rows]
 
 
-def load(texts):
+def load(texts, builds_between=False):
     import xtuml
     l = xtuml.ModelLoader()
-    for t in texts:
+    for k, t in enumerate(texts):
+        if builds_between and k:
+            # a metamodel built from the input given so far (it may be refused while a class is still missing);
+            # the statement is about the last build only, which must not depend on earlier ones
+            try:
+                l.build_metamodel(xtuml.IntegerGenerator())
+            except Exception:
+                pass
         l.input(t)
     return l.build_metamodel(xtuml.IntegerGenerator())
 
@@ -402,6 +411,25 @@ def order_task(ctx, task):
                 continue
             ctx.count('traces')
             ctx.distinct('nontrivial', ('split', si, repr(rows), cuts, order))
+            if len(parts) > 1:
+                # the same split with a metamodel built after every input() call (round 7: C03-14)
+                ctx.count('loads')
+                try:
+                    got = value_canon(load([parts[i] for i in order], builds_between=True), schema)
+                except Exception as e:
+                    ctx.violation('c03:order:partition-with-builds:%s' % type(e).__name__,
+                                  dict(case0, cuts=list(cuts), order=list(order), builds_between=True),
+                                  'split %s fed in order %s with a build after every input raised %s: %s'
+                                  % (cuts, order, type(e).__name__, e))
+                    continue
+                if got != base:
+                    ctx.violation('c03:order:partition-with-builds',
+                                  dict(case0, cuts=list(cuts), order=list(order), builds_between=True),
+                                  'split %s fed in order %s with a build after every input gives a different metamodel: %s'
+                                  % (cuts, order, first_diff(base, got)))
+                    continue
+                ctx.count('traces')
+                ctx.distinct('nontrivial', ('split+builds', si, repr(rows), cuts, order))
 
 
 def first_diff(a, b):
